@@ -221,7 +221,7 @@ def run(tier):
             reqs.append({"id": len(reqs), "kind": "conv", "row": [values.to_jval(val)], "dests": [dest]})
             meta.append(([(val, kind)], [dest]))
     # rows of width 0..3 x destination lists of length 0..4 (below / at / above the row width), errors at every position
-    n_multi = 2500 if tier == "quick" else 40000
+    n_multi = 2500 if tier == "quick" else 250000
     for _ in range(n_multi):
         w = rnd.randrange(0, 4)
         row = [rnd.choice(g) for _ in range(w)]
